@@ -20,7 +20,9 @@ def draw(tier, salt, n_quick=64, n_thorough=1600, n_values=3):
     n = n_quick if tier == "quick" else n_thorough
     envs, items, owner = [], [], []
     while len(envs) < n:
-        defs = gen.gen_env(rnd)
+        # one schema in four comes from the family aimed at externally sized
+        # arrays whose sizer lives in an earlier part
+        defs = gen.gen_env_sizers(rnd) if len(envs) % 4 == 3 else gen.gen_env(rnd)
         env = S.Env(defs)
         if not cppwire.cpp_full_accepts(env):
             continue
@@ -45,8 +47,20 @@ def canonical_groups(tier, salt, **kw):
         if v is None:
             raise wire.MachineryError("generated walk is not a behaviour of the specification: %r" % (it,))
         groups[o]["vectors"].append({"walk": it["walk"], "outL": v["outL"], "outB": v["outB"], "gta": v["gta"],
-                                     "inner": "given", "env": it["env"], "rkind": v["kind"]})
+                                     "inner": "given", "env": it["env"], "rkind": v["kind"], "ust": v["ust"]})
     return rnd, groups, [st]
+
+
+def raw_groups(tier, salt):
+    """canonical groups plus the layout and raw offset tables (LayoutGiven)"""
+    rnd, groups, stats = canonical_groups(tier, salt)
+    lays, st = wire.layout_of([g["cons"] for g in groups])
+    stats.append(st)
+    for g, l in zip(groups, lays):
+        g["lay"] = l["lay"]
+        for v in g["vectors"]:
+            v["lay"], v["raw"] = l["lay"], l["raw"]
+    return groups, stats
 
 
 def fault_groups(tier, salt, n_mut_quick=6, n_mut_thorough=12):
